@@ -232,22 +232,6 @@ def pqPosition (x : PQ) (h : Nat) : Nat :=
     ahead + 1
   | .error _ => 0
 
-/-! ### conditions -/
-
-/-- `cmb_condition_signal`: every waiter (in heap-array order) whose predicate holds is woken and removed -/
-def condSignal (w : World) (g : Nat) : World × Bool :=
-  match w.guards[g]? with
-  | none => (w, false)
-  | some gd =>
-    if gd.q.count = 0 then (w, false) else
-    let tags := HashHeap.liveTags gd.q
-    let sat := tags.filter fun t => evalDemand w ((gd.demands.lookup t.key).getD (.cond 99 0 0))
-    let w := sat.foldl (fun w t =>
-      let pid := t.key - 1
-      (sched w aCond (pid + 1) sigSuccess w.now (w.proc pid).prio).1) w
-    let w := sat.foldl (fun w t => (guardRemove w g (t.key - 1)).1) w
-    (w, sat.length > 0)
-
 /-! ### commands -/
 
 
